@@ -76,6 +76,12 @@ func translateArgs(args []string) []string {
 		return args
 	}
 
+	// directory in current workdir may be named like one of commands: command wins
+	switch args[0] {
+	case "server", "make-iso", "decrypt":
+		return args
+	}
+
 	if st, err := os.Stat(args[0]); err == nil && st.IsDir() {
 		return append([]string{"server", "--root=" + args[0]}, args[1:]...)
 	}
